@@ -135,7 +135,7 @@ impl TryFrom<&InformationItem> for Variable {
   ///
   fn try_from(value: &InformationItem) -> Result<Self, Self::Error> {
     let name = value.feel_name().as_ref().ok_or_else(err_empty_feel_name)?.clone();
-    let type_ref = value.type_ref().clone();
+    let type_ref = value.type_ref().as_ref().map(|type_ref| type_ref.trim().to_string());
     Ok(Self { name, type_ref })
   }
 }
